@@ -12,10 +12,11 @@ SCHEMA = """
 interface Node { id: ID! }
 enum Color { RED GREEN BLUE }
 enum Size { S M L }
-type User implements Node { id: ID! name: String color: Color size: Size friends: [User!] }
+scalar Money
+type User implements Node { id: ID! name: String color: Color size: Size friends: [User!] balanceAmount: Money creditLimit: Money }
 type Bot implements Node { id: ID! model: String size: Size }
 union Actor = User | Bot
-input Filter { color: Color sizes: [Size!] nested: Filter }
+input Filter { color: Color sizes: [Size!] nested: Filter minBalance: Money maxBalance: Money }
 type Query { node(id: ID!): Node actors(f: Filter): [Actor!] me: User }
 """
 QUERIES = """
@@ -29,6 +30,8 @@ fragment OnNode on Node { id ... on User { ...FB } ... on Bot { model } }
 query GetMe { me { ...FA } }
 query GetNode($id: ID!) { node(id: $id) { __typename ...OnNode } }
 query GetActors($f: Filter) { actors(f: $f) { __typename ... on User { ...FC ...FD } ... on Bot { size } } }
+query GetBalances($f: Filter) { actors(f: $f) { ... on User { balanceAmount creditLimit } } me { balanceAmount } }
+query AnOperationWithAVeryLongNameThatGoesWellBeyondSixtyFourCharactersInItsSnakeCaseForm { me { id } }
 query SpreadsInsideInlineFragment { me { id ... on User { ...FF ...FD ...FB ...FC } } node(id: "1") { ... on User { ...FD ...FC ...FB ...FF } } }
 fragment Unpacked on Node { ... on User { ...FC ...FB ...FF ...FD } }
 query SpreadsInsideUnpackedFragment { node(id: "2") { ...Unpacked } }
@@ -39,6 +42,7 @@ from ariadne_codegen.main import client
 root = sys.argv[1]
 cfg = dict(schema_path=os.path.join(root, "schema.graphql"), queries_path=os.path.join(root, "queries.graphql"),
            target_package_name="pkg", target_package_path=root, include_comments="none",
+           scalars={"Money": {"type": "client.scalars.Money", "parse": "client.scalars.parse_money", "serialize": "client.scalars.ser_money"}},
            plugins=json.loads(sys.argv[2]))
 with contextlib.redirect_stdout(io.StringIO()):
     client({"tool": {"ariadne-codegen": cfg}})
@@ -64,6 +68,7 @@ root = sys.argv[1]
 for sub in ("first", "second"):
     cfg = dict(schema_path=os.path.join(root, "schema.graphql"), queries_path=os.path.join(root, "queries.graphql"),
                target_package_name="pkg", target_package_path=os.path.join(root, sub), include_comments="none",
+               scalars={"Money": {"type": "client.scalars.Money", "parse": "client.scalars.parse_money", "serialize": "client.scalars.ser_money"}},
                plugins=json.loads(sys.argv[2]))
     os.makedirs(os.path.join(root, sub), exist_ok=True)
     with contextlib.redirect_stdout(io.StringIO()):
@@ -121,6 +126,10 @@ def replay_generation_hash_seeds(seeds=(0, 1, 2, 3, 1000), plugins=()):
             digests[seed] = _digest(os.path.join(root, "pkg"))
             if seed == seeds[0]:        # regenerate over the existing directory
                 r = subprocess.run([sys.executable, "-c", PROG, root, json.dumps(list(plugins))], capture_output=True, text=True, env=env, timeout=300)
+                if r.returncode != 0:
+                    rep["outcome"]["regeneration"] = r.stderr[-300:]
+                    rep["failed"].append("regeneration over the existing directory fails")
+                    return rep
                 digests["again"] = _digest(os.path.join(root, "pkg"))
         first = digests[seeds[0]]
         differing = sorted({fn for d in digests.values() for fn in set(d) | set(first) if d.get(fn) != first.get(fn)})
